@@ -121,10 +121,15 @@ fn b64(bytes: &[u8]) -> String {
 }
 
 fn text_family(o: &mut Out, r: &mut Rng, th: bool) {
-    let pods: [(&str, usize); 7] = [("pubkey", 32), ("ct", 64), ("handle", 32), ("cmt", 32), ("gct2", 96), ("gct3", 128), ("aect", 36)];
+    let pods: [(&str, usize); 19] = [("pubkey", 32), ("ct", 64), ("handle", 32), ("cmt", 32), ("gct2", 96), ("gct3", 128), ("aect", 36),
+        ("p-zero", 96), ("p-pubkey", 64), ("p-ctct", 224), ("p-ctcmt", 192), ("p-val2", 160), ("p-val3", 192), ("p-bval2", 160),
+        ("p-bval3", 192), ("p-cap", 256), ("p-range64", 672), ("p-range128", 736), ("p-range256", 800)];
     for (codec, n) in pods {
+        if !th && codec.starts_with("p-") && (n / 32 + r.below(3) as usize) % 3 != 0 && codec != "p-pubkey" && codec != "p-range128" { continue; }
         for _ in 0..(if th { 10 } else { 2 }) {
-            let v = r.bytes(n);
+            // bytes whose base64 text uses the two alphabet-specific symbols (62, 63) as well
+            let mut v = r.bytes(n);
+            if r.below(2) == 0 { let k = r.below((n - 2) as u64) as usize; v[k] = 0xfb; v[k + 1] = 0xef; v[k + 2] = 0xff; }
             let s = b64(&v);
             o.op(&format!("fromstr.{}.valid", codec), &format!("fromstr {} {}", codec, hex(s.as_bytes())));
             o.op(&format!("tostr.{}", codec), &format!("tostr {} {}", codec, hex(&v)));
@@ -177,6 +182,16 @@ fn text_family(o: &mut Out, r: &mut Rng, th: bool) {
                 format!("{{\"a\":{}}}", j), "[]".into(), "".into(), "[".into(), "]".into(), "null".into(), "[ ]".into(),
                 json(&v[..n - 1]), json(&[v.clone(), vec![7]].concat()),
             ];
+            // special 32-byte values (l, l+1, 2^255-19 .., all ones, identity, undecodable) in each 32-byte slot
+            if n >= 32 {
+                for (_, sv) in crate::gen_sigma::special_values() {
+                    for slot in 0..(n / 32) {
+                        let mut z = v.clone();
+                        z[32 * slot..32 * slot + 32].copy_from_slice(&sv);
+                        docs.push(json(&z));
+                    }
+                }
+            }
             // zero secret half (finding F1) through the JSON reader
             if codec == "keypair" {
                 let mut z = v.clone();
@@ -444,6 +459,13 @@ pub fn gen_c13(o: &mut Out, tier: &str, seed: u64) {
             o.op("encrypt", &format!("ae encrypt {} {} {}", hex(k), a, hex(&r.bytes(8))));
         }
     }
+    // text form on byte patterns that exercise both alphabet-specific base64 symbols
+    for _ in 0..(if th { 40 } else { 6 }) {
+        let mut v = r.bytes(36);
+        let k = r.below(34) as usize; v[k] = 0xfb; v[k + 1] = 0xef; v[k + 2] = 0xff;
+        o.op("text", &format!("tostr aect {}", hex(&v)));
+        o.op("text", &format!("fromstr aect {}", hex(b64(&v).as_bytes())));
+    }
     // every single-bit flip of sampled ciphertexts; other keys
     for _ in 0..(if th { 40 } else { 4 }) {
         let kb = r.bytes(16);
@@ -451,6 +473,10 @@ pub fn gen_c13(o: &mut Out, tier: &str, seed: u64) {
         let a = *r.pick(&amounts);
         let ct = key.encrypt(a).to_bytes();
         o.op_exp("accepted", &format!("some:{}", a), &format!("ae dec {} {}", hex(&kb), hex(&ct)));
+        // the ciphertext survives its text form: Display (typed and Pod) is the standard base64 of the 36 bytes,
+        // and FromStr of that text gives the 36 bytes back
+        o.op("text", &format!("tostr aect {}", hex(&ct)));
+        o.op("text", &format!("fromstr aect {}", hex(b64(&ct).as_bytes())));
         for bit in 0..288 {
             let mut m = ct.to_vec();
             m[bit / 8] ^= 1 << (bit % 8);
